@@ -39,69 +39,25 @@ Theorem C04_wv_typed_decoders : forall cur d o, bytes_okb d = true ->
 Proof. exact typed_wv_agree_proved. Qed.
 Print Assumptions C04_wv_typed_decoders.
 
-(* EARLIER FORM, for every table (no hypothesis on the tables is needed: specification and parser both take
-   the first row that matches, so a table change cannot break it) and every well-formed document: the parser,
-   given one unit of fuel more than the length of the document, delivers exactly the events the specification
-   assigns to the abstract document: header (charset, language), elements with token and literal tags under the
-   tag page in force, attributes (start-token prefix ++ value tokens, strings, entities, opaque, extensions, under
-   the attribute page in force; SI / EMN date-time attributes decoded), character data (STR_I, STR_T at any
-   offset, ENTITY -> UTF-8, OPAQUE with the DRMREL / SyncML base64 rules, WML variables, WV extension values),
-   PIs, SWITCH_PAGE in both spaces, nesting up to the library's limit.
-   FULL for every table that contains no Wireless Village language (C04_parser_reports_denotation_non_wv).
-   PARTIAL for WV CSP 1.1 / 1.2 documents only: the premise `typed_wv_agree` (the WV opaque integer / date-time
-   decoders agree with their specifications in Spec.v) is not proved here; it is exercised by the correspondence
-   check and is the subject of C12. *)
-Theorem C04_parser_reports_denotation_partial :
-  forall (tbl : list lang),
-  (forall l, In l tbl -> (l_id l =? 2301) || (l_id l =? 2302) = true -> typed_wv_agree) ->
-  forall (d : wdoc) (evs : list event),
-    denote tbl d = Some evs ->
-    parse tbl (S (length (serialize d))) (serialize d) = POk evs.
-Proof. intros tbl Hwv d evs. exact (parse_denote tbl Hwv typed_datetime_agree_proved d evs). Qed.
-Print Assumptions C04_parser_reports_denotation_partial.
-
-(* unconditional when the table has no Wireless Village entry (27 of the 29 languages of main_table) *)
-Theorem C04_parser_reports_denotation_non_wv :
-  forall (tbl : list lang),
-  forallb (fun l => negb ((l_id l =? 2301) || (l_id l =? 2302))) tbl = true ->
-  forall (d : wdoc) (evs : list event),
-    denote tbl d = Some evs ->
-    parse tbl (S (length (serialize d))) (serialize d) = POk evs.
-Proof.
-  intros tbl Hno d evs. apply (parse_denote tbl); [|exact typed_datetime_agree_proved].
-  intros l Hin Hwv. rewrite forallb_forall in Hno. specialize (Hno l Hin). rewrite Hwv in Hno. discriminate.
-Qed.
-Print Assumptions C04_parser_reports_denotation_non_wv.
-
-(* the same, in the form "wf d -> the events are those of denote" *)
-Theorem C04_wf_documents_parse_partial :
-  forall tbl, (forall l, In l tbl -> (l_id l =? 2301) || (l_id l =? 2302) = true -> typed_wv_agree) ->
-  forall d, wf tbl d -> exists evs, denote tbl d = Some evs /\ parse tbl (S (length (serialize d))) (serialize d) = POk evs.
-Proof.
-  intros tbl Hwv d Hwf. unfold wf in Hwf. destruct (denote tbl d) as [evs|] eqn:E; [|congruence].
-  exists evs. split; [reflexivity|exact (parse_denote tbl Hwv typed_datetime_agree_proved d evs E)].
-Qed.
-Print Assumptions C04_wf_documents_parse_partial.
-
 (* the SI / EMN %Datetime decoder agrees with its specification (discharges the second typed premise) *)
 Theorem C04_datetime_attribute_decoder : forall v o, spec_datetime v = Some o -> decode_datetime v = POk o.
 Proof. exact typed_datetime_agree_proved. Qed.
 Print Assumptions C04_datetime_attribute_decoder.
 
-(* sub-layer: one element (any nesting, attributes, content) from any parser state that corresponds to the
+(* sub-layer, FULL: one element (any nesting, attributes, content) from any parser state that corresponds to the
    specification's state, with whatever bytes follow *)
-Theorem C04_element_partial :
-  forall l tb ver cs, cs_ok cs -> ((l_id l =? 2301) || (l_id l =? 2302) = true -> typed_wv_agree) ->
+Theorem C04_element :
+  forall l tb ver cs, cs_ok cs ->
   forall sw tag attrs hasc items depth parent dst evs dst' fuel r,
     den_item (mk_denv l tb) depth parent (WItemElt sw tag attrs hasc items) dst = Some (evs, dst') ->
     (length (ser_item (WItemElt sw tag attrs hasc items)) <= fuel)%nat ->
     parse_element_with fuel (penv_of l tb ver cs) (content_loop fuel (penv_of l tb ver cs) depth)
                        (pst dst (ser_item (WItemElt sw tag attrs hasc items) ++ r)) = POk (evs, pst dst' r).
 Proof.
-  intros l tb ver cs Hcs Hwv sw tag attrs hasc items.
-  exact (element_ok l tb ver cs Hcs Hwv typed_datetime_agree_proved sw tag attrs hasc items).
+  intros l tb ver cs Hcs sw tag attrs hasc items.
+  exact (element_ok l tb ver cs Hcs (fun _ => typed_wv_agree_proved) typed_datetime_agree_proved sw tag attrs hasc items).
 Qed.
-Print Assumptions C04_element_partial.
+Print Assumptions C04_element.
 
 (* THE STRICT DECODER IS A PROVED ORACLE (FULL, no premise, every table).
    Spec.decode = unser (pure grammar reader: shortest-form integers, no trailing bytes) + strict_doc (terminated
@@ -165,3 +121,73 @@ Proof. vm_compute. repeat split; reflexivity. Qed.
 Theorem C04_empty_document_refused : forall tbl fuel, parse tbl fuel [] = PErr PE_EMPTY_WBXML.
 Proof. reflexivity. Qed.
 Print Assumptions C04_empty_document_refused.
+
+(* ====================================================================================================== *)
+(* HISTORY — SUPERSEDED STATEMENTS.  Everything below is still true and still checked, but each theorem is a   *)
+(* weaker form of a FULL theorem above and must not be read as the status of the property:                    *)
+(*   C04_parser_reports_denotation_partial, C04_parser_reports_denotation_non_wv                              *)
+(*                                   -> superseded by C04_parser_reports_denotation (no premise)              *)
+(*   C04_wf_documents_parse_partial  -> superseded by C04_wf_documents_parse                                  *)
+(*   C04_element_partial             -> superseded by C04_element                                             *)
+(* Their premise typed_wv_agree is the theorem C04_wv_typed_decoders.                                         *)
+(* ====================================================================================================== *)
+
+(* superseded form, for every table (no hypothesis on the tables is needed: specification and parser both take
+   the first row that matches, so a table change cannot break it) and every well-formed document: the parser,
+   given one unit of fuel more than the length of the document, delivers exactly the events the specification
+   assigns to the abstract document: header (charset, language), elements with token and literal tags under the
+   tag page in force, attributes (start-token prefix ++ value tokens, strings, entities, opaque, extensions, under
+   the attribute page in force; SI / EMN date-time attributes decoded), character data (STR_I, STR_T at any
+   offset, ENTITY -> UTF-8, OPAQUE with the DRMREL / SyncML base64 rules, WML variables, WV extension values),
+   PIs, SWITCH_PAGE in both spaces, nesting up to the library's limit.
+   FULL for every table that contains no Wireless Village language (C04_parser_reports_denotation_non_wv).
+   PARTIAL for WV CSP 1.1 / 1.2 documents only: the premise `typed_wv_agree` (the WV opaque integer / date-time
+   decoders agree with their specifications in Spec.v) is not proved here; it is exercised by the correspondence
+   check and is the subject of C12. *)
+Theorem C04_parser_reports_denotation_partial :
+  forall (tbl : list lang),
+  (forall l, In l tbl -> (l_id l =? 2301) || (l_id l =? 2302) = true -> typed_wv_agree) ->
+  forall (d : wdoc) (evs : list event),
+    denote tbl d = Some evs ->
+    parse tbl (S (length (serialize d))) (serialize d) = POk evs.
+Proof. intros tbl Hwv d evs. exact (parse_denote tbl Hwv typed_datetime_agree_proved d evs). Qed.
+Print Assumptions C04_parser_reports_denotation_partial.
+
+(* unconditional when the table has no Wireless Village entry (27 of the 29 languages of main_table) *)
+Theorem C04_parser_reports_denotation_non_wv :
+  forall (tbl : list lang),
+  forallb (fun l => negb ((l_id l =? 2301) || (l_id l =? 2302))) tbl = true ->
+  forall (d : wdoc) (evs : list event),
+    denote tbl d = Some evs ->
+    parse tbl (S (length (serialize d))) (serialize d) = POk evs.
+Proof.
+  intros tbl Hno d evs. apply (parse_denote tbl); [|exact typed_datetime_agree_proved].
+  intros l Hin Hwv. rewrite forallb_forall in Hno. specialize (Hno l Hin). rewrite Hwv in Hno. discriminate.
+Qed.
+Print Assumptions C04_parser_reports_denotation_non_wv.
+
+(* the same, in the form "wf d -> the events are those of denote" *)
+Theorem C04_wf_documents_parse_partial :
+  forall tbl, (forall l, In l tbl -> (l_id l =? 2301) || (l_id l =? 2302) = true -> typed_wv_agree) ->
+  forall d, wf tbl d -> exists evs, denote tbl d = Some evs /\ parse tbl (S (length (serialize d))) (serialize d) = POk evs.
+Proof.
+  intros tbl Hwv d Hwf. unfold wf in Hwf. destruct (denote tbl d) as [evs|] eqn:E; [|congruence].
+  exists evs. split; [reflexivity|exact (parse_denote tbl Hwv typed_datetime_agree_proved d evs E)].
+Qed.
+Print Assumptions C04_wf_documents_parse_partial.
+
+(* superseded form of C04_element: one element (any nesting, attributes, content) from any parser state that corresponds to the
+   specification's state, with whatever bytes follow *)
+Theorem C04_element_partial :
+  forall l tb ver cs, cs_ok cs -> ((l_id l =? 2301) || (l_id l =? 2302) = true -> typed_wv_agree) ->
+  forall sw tag attrs hasc items depth parent dst evs dst' fuel r,
+    den_item (mk_denv l tb) depth parent (WItemElt sw tag attrs hasc items) dst = Some (evs, dst') ->
+    (length (ser_item (WItemElt sw tag attrs hasc items)) <= fuel)%nat ->
+    parse_element_with fuel (penv_of l tb ver cs) (content_loop fuel (penv_of l tb ver cs) depth)
+                       (pst dst (ser_item (WItemElt sw tag attrs hasc items) ++ r)) = POk (evs, pst dst' r).
+Proof.
+  intros l tb ver cs Hcs Hwv sw tag attrs hasc items.
+  exact (element_ok l tb ver cs Hcs Hwv typed_datetime_agree_proved sw tag attrs hasc items).
+Qed.
+Print Assumptions C04_element_partial.
+
